@@ -241,7 +241,7 @@ void gcm_case(Tape &t, Ctx &c) {
         }
         c.count(fmt("gcm:aes-%zu", kl * 8)); c.count(tl == 16 ? "gcm-tag:16" : tl >= 8 ? "gcm-tag:8-15" : "gcm-tag:1-7");
         c.count(alen == 0 ? "gcm-aad:0" : alen <= 64 ? "gcm-aad:1-64" : alen <= 128 ? "gcm-aad:65-128" : "gcm-aad:>128");
-        c.count(L.cls == 0 ? "gcm-len:0..65" : L.cls == 1 ? "gcm-len:boundary" : "gcm-len:large");
+        c.count(L.cls == 0 ? "gcm-len:0..65" : L.cls == 1 ? "gcm-len:boundary" : L.cls == 3 ? "gcm-len:beyond-2^16" : "gcm-len:large");
         if (parts.size() > 1) c.count("gcm-enc-split");
         if (ip) c.count("gcm-enc-inplace"); if (dip) c.count("gcm-dec-inplace");
         if (mi) c.count("gcm-ctx-reuse");
@@ -369,7 +369,7 @@ void chacha_case(Tape &t, Ctx &c) {
             c.count("chacha-neg:shorter-than-tag");
         }
         c.count("chacha"); c.count(alen == 0 ? "chacha-aad:0" : alen <= 64 ? "chacha-aad:1-64" : "chacha-aad:>64");
-        c.count(L.cls == 0 ? "chacha-len:small" : L.cls == 1 ? "chacha-len:boundary" : "chacha-len:large");
+        c.count(L.cls == 0 ? "chacha-len:small" : L.cls == 1 ? "chacha-len:boundary" : L.cls == 3 ? "chacha-len:beyond-2^16" : "chacha-len:large");
         if (ip) c.count("chacha-enc-inplace"); if (dip) c.count("chacha-dec-inplace"); if (mi) c.count("chacha-ctx-reuse");
         c.count(eapi ? "chacha-seal:detached" : "chacha-seal:combined"); c.count(api ? "chacha-open:detached" : "chacha-open:combined");
         key += fmt("cha|%s|a%zu|%u%u|%d%d|%u,%u|%s;", len_key(L.n, 64).c_str(), alen <= 17 ? alen : 18 + alen / 32, eapi, api, ip, dip, io, doff, negs.c_str());
